@@ -14,4 +14,5 @@ import SwcVerif.Model.AlgoRunParse
 import SwcVerif.Model.AlgoRunCut
 import SwcVerif.Model.AlgoRunRepair
 import SwcVerif.Model.AlgoRunAsc
+import SwcVerif.Model.AlgoRunBranchTree
 /-! all runners of generated definitions (imported by the root module only; the driver imports them one by one) -/
